@@ -8,7 +8,6 @@ let base_z = Z.of_int 0x10000          (* address of the model's buffer; ids are
 let base_n = n_of_z base_z
 let two64 = Z.shift_left Z.one 64
 let all_kinds = 63
-let rc_kinds = 46                      (* 2 rc + 4 arc + 8 custom + 32 relocate<rc> *)
 
 type op = int * int * Z.t
 
@@ -87,24 +86,11 @@ let case_line stream mask be (buf : int list) (ops : op list) =
   List.iter (fun (k, i, a) -> Buffer.add_string b (Printf.sprintf " %d %d %s" k i (Z.to_string a))) ops;
   Buffer.contents b
 
-(* Reader::empty on the borrowed kinds is a known finding (known_findings.txt). `./check` inspects at most
-   200 differing cases per shard, so only the first [exhibit_max] histories with `empty` of a stream are run
-   on all six kinds in full (they exhibit the finding); every such history is always run in full on the
-   reference-counted kinds, and (random stream) its prefix before the first `empty` on all six kinds. *)
-let exhibit_max = 300
-let emit_case ?(prefix = false) exhibits emit stream be buf ops =
+(* every history runs on all six reader kinds (EndianSlice::empty keeps its position since gimli fd639ac,
+   so no history needs to be restricted to the reference-counted kinds any more) *)
+let emit_case emit stream be buf ops =
   let root = Cursor.coq_new (bytes_of_ints buf) base_n in
-  let go mask ops = both emit (case_line stream mask be buf ops) (fun dbg -> trace dbg be root ops) in
-  let has_empty = List.exists (fun (k, _, _) -> k = 7) ops in
-  if not has_empty then go all_kinds ops
-  else begin
-    go rc_kinds ops;
-    if !exhibits < exhibit_max then (incr exhibits; go all_kinds ops)
-    else if prefix then begin
-      let rec before = function [] -> [] | (7, _, _) :: _ -> [] | o :: r -> o :: before r in
-      match before ops with [] -> () | pre -> go all_kinds pre
-    end
-  end
+  both emit (case_line stream all_kinds be buf ops) (fun dbg -> trace dbg be root ops)
 
 (* ---- buffers ---- *)
 let utf8_chunks = [|
@@ -240,33 +226,30 @@ let () =
     (fun ~seed:_ ~n emit ->
       let maxlen = if n >= 100000 then 4 else 3 in
       let na = Array.length seq_alpha in
-      let ex = ref 0 in
       let rec go prefix depth =
         if depth > 0 then
           for a = 0 to na - 1 do
             let h = prefix @ [seq_alpha.(a)] in
-            emit_case ex emit "c10.seq" false seq_buf h;
+            emit_case emit "c10.seq" false seq_buf h;
             go h (depth - 1)
           done in
       go [] maxlen;
       (* both byte orders on the length-2 histories *)
       for a = 0 to na - 1 do for b = 0 to na - 1 do
-        emit_case ex emit "c10.seq" true seq_buf [seq_alpha.(a); seq_alpha.(b)] done done);
+        emit_case emit "c10.seq" true seq_buf [seq_alpha.(a); seq_alpha.(b)] done done);
   register "c10.ops" ~doc:"random histories (1..14 calls, in-range and out-of-range arguments, clone/split/drop in any order) on random sections of 0..40 bytes, all six reader kinds"
     (fun ~seed ~n emit ->
       let r = mk_rng seed in
-      let ex = ref 0 in
       for _ = 1 to n do
         let be = rand_bool r in
         let buf = gen_buf r in
-        let allow_empty = rand_int r 4 = 0 in
+        let allow_empty = rand_int r 3 <> 0 in
         let ops = gen_ops r ~allow_empty be buf in
-        emit_case ~prefix:true ex emit "c10.ops" be buf ops
+        emit_case emit "c10.ops" be buf ops
       done);
   register "c10.utf8" ~doc:"Reader::to_string: every byte string of length <= 2, a boundary grid of 3- and 4-byte sequences, random mixes of well-formed and ill-formed chunks"
     (fun ~seed ~n emit ->
-      let ex = ref 0 in
-      let k l = emit_case ex emit "c10.utf8" false l [(16, 0, Z.zero)] in
+      let k l = emit_case emit "c10.utf8" false l [(16, 0, Z.zero)] in
       k [];
       for a = 0 to 255 do k [a] done;
       for a = 0 to 255 do for b = 0 to 255 do k [a; b] done done;
@@ -389,7 +372,6 @@ let () =
   register "c10.parse" ~doc:"small generated .debug_abbrev / .debug_line (v2-4) / expression blobs (valid, truncated, mutated) parsed under each of the six reader kinds; dumps must be identical"
     (fun ~seed ~n emit ->
       let r = mk_rng seed in
-      let exhibits = ref 0 in
       for i = 1 to n do
         let be = rand_bool r in
         let asz = pick r [| 4; 8; 8; 2 |] in
@@ -399,9 +381,8 @@ let () =
           | 2 -> gen_line r be (if asz = 2 then 4 else asz)
           | _ -> gen_expr r be (if asz = 2 then 4 else asz) in
         let blob = mutate r blob in
-        (* flag=1 (expressions only): also compare OperationIter::offset_from after an error, which exhibits
-           the known EndianSlice::empty finding; limited to the first cases so that it cannot drown the rest *)
-        let flag = if what = 3 && !exhibits < 150 then (incr exhibits; 1) else 0 in
+        (* flag=1 (expressions): also compare OperationIter::offset_from after an error *)
+        let flag = if what = 3 then 1 else 0 in
         let case = Printf.sprintf "c10.parse %d %d %d %d %s" what (if be then 1 else 0) flag
             (if asz = 2 then 4 else asz) (hex_of_ints blob) in
         emit case "same" "same"
